@@ -121,6 +121,10 @@ theorem de_ser : ∀ (s : Schema) (v : Val), wf s = true → hasType s v = true 
       have h2 := deAltObj_ser alts i x _ hw.1.1 ht hfl hA hO
       have := deByName_found alts i x (.obj ((t, Json.str (altName alts i)) :: objKvs (serAlt alts i x))) 0 hw.2 ht h2
       simp [ser, de, lookup, this]
+  | .refine s p, v, hw, ht => by
+      simp only [wf] at hw
+      simp [hasType] at ht
+      simp [ser, de, ht.2, de_ser s v hw ht.1]
 /-- a flattened / internally tagged member is read back from ANY object that agrees with what it wrote on its own keys -/
 theorem deObj_ser : ∀ (s : Schema) (v : Val) (O : Kvs), wf s = true → hasType s v = true → flattenable s = true →
     Agree (namesOf s) O (objKvs (ser s v)) → (keys O).Nodup → de s (.obj O) = some v
@@ -147,7 +151,7 @@ theorem deObj_ser : ∀ (s : Schema) (v : Val) (O : Kvs), wf s = true → hasTyp
   | .bool, _, _, _, _, hf, _, _ | .int _ _, _, _, _, _, hf, _, _ | .flt, _, _, _, _, hf, _, _ | .str, _, _, _, _, hf, _, _
   | .hex _ _, _, _, _, _, hf, _, _ | .any, _, _, _, _, hf, _, _ | .opt _, _, _, _, _, hf, _, _ | .seq _ _, _, _, _, _, hf, _, _
   | .map, _, _, _, _, hf, _, _ | .unitEnum _, _, _, _, _, hf, _, _ | .untagged _, _, _, _, _, hf, _, _
-  | .internal _ _, _, _, _, _, hf, _, _ => by simp [flattenable] at hf
+  | .internal _ _, _, _, _, _, hf, _, _ | .refine _ _, _, _, _, _, hf, _, _ => by simp [flattenable] at hf
 theorem deFields_ser : ∀ (fs : Fields) (vs : List Val) (O : Kvs), wfFields fs = true → (allNames fs).Nodup →
     typedFields fs vs = true → Agree (allNames fs) O (serFields fs vs) → (keys O).Nodup → deFields fs O = some vs
   | .nil, vs, O, _, _, ht, _, _ => by cases vs <;> simp_all [typedFields, deFields]
